@@ -1,0 +1,5 @@
+//go:build !verif
+
+package bt
+
+func verifTrace(method, op, on string) {}
